@@ -122,11 +122,16 @@ class Fn:
         mapping = {}
         banned = (ast.Yield, ast.Await, ast.NamedExpr, ast.Lambda) + (() if comps else (ast.ListComp, ast.DictComp, ast.SetComp, ast.GeneratorExp))
         for x in ast.walk(e):
-            if isinstance(x, ast.Name) and isinstance(x.ctx, ast.Load) and x.id in self.lf.locals and x.id not in stop and x.id not in mapping \
-                    and x.id not in self.mutated_in_place():
+            if isinstance(x, ast.Name) and isinstance(x.ctx, ast.Load) and x.id in self.lf.locals and x.id not in stop and x.id not in mapping:
                 vals = self.lf.values_reaching(nid, x.id)
                 if len(vals) == 1 and vals[0][0] != PARAM and vals[0][1] is not None:
                     site, v = vals[0]
+                    # a container built here and filled in place afterwards is not its defining expression any more; a
+                    # local that merely names an existing object (a lookup) still is
+                    if x.id in self.mutated_in_place() and (isinstance(v, (ast.Dict, ast.List, ast.Set, ast.Tuple, ast.ListComp, ast.DictComp, ast.SetComp, ast.Constant))
+                                                          or (isinstance(v, ast.Call) and not isinstance(v.func, ast.Attribute))
+                                                          or (isinstance(v, ast.Call) and isinstance(v.func, ast.Attribute) and v.func.attr in ('copy', 'deepcopy', 'array', 'full', 'zeros', 'empty'))):
+                        continue
                     if not any(isinstance(y, banned) for y in ast.walk(v)):
                         stable = True
                         for y in ast.walk(v):
